@@ -337,8 +337,13 @@ def run(p, report, tier):
         # R1.5: picks flow (as values) to the returned indices
         vfw = forward_closure(rnames, ff.vedges)
         flows = bool((vfw | rnames) & ff.ret_closure)
-        report.add("R1.5", ent, construct, f"{f.file}:{S.lineno}", flows,
+        recovered = False
+        if not flows:
+            recovered = picks_recovered_from_marks(p, f)
+        report.add("R1.5", ent, construct, f"{f.file}:{S.lineno}", flows or recovered,
                    detail="picks flow to the returned indices" if flows else
+                   "the function returns only the marked utility rows; every caller reads the picks off the marks "
+                   "(position that is NaN in row i+1 but not in row i)" if recovered else
                    "the picks used for masking are not what the function returns; the caller has to re-derive "
                    "them from the utility rows with an independent tie-break")
     report.analysed["selection_loops"] = n_loops
@@ -927,6 +932,41 @@ def outside_defs(fnode, L):
 
 
 # ---------------------------------------------------------------------------
+def picks_recovered_from_marks(p, f):
+    """f returns utility rows in which the pick of step i is NaN from step i+1 on.  True if every
+    project caller of f derives its indices from these marks: some assignment in the caller combines
+    `isnan(R[1:])` and `isnan(R[:-1])` (R the call's result or what it was scattered into) and the
+    result of that is stored into the returned indices."""
+    callers = []
+    for g in p.all_functions():
+        if g.node is f.node or "/tests/" in g.file:
+            continue
+        for c in ast.walk(g.node):
+            if isinstance(c, ast.Call) and callname(c) == f.name:
+                callers.append(g)
+                break
+    if not callers:
+        return False
+    for g in callers:
+        txt_ok = False
+        nan_names = set()
+        for n in ast.walk(g.node):
+            if isinstance(n, ast.Assign) and len(n.targets) == 1 and isinstance(n.targets[0], ast.Name) \
+                    and isinstance(n.value, ast.Call) and callname(n.value) in ("isnan", "np.isnan"):
+                nan_names.add(n.targets[0].id)
+        for n in ast.walk(g.node):
+            if not isinstance(n, ast.Assign):
+                continue
+            t = ast.unparse(n.value).replace(" ", "")
+            later = any(f"{nm}[1:]" in t for nm in nan_names) or "isnan(" in t and "[1:]" in t
+            earlier = any(f"~{nm}[:-1]" in t for nm in nan_names) or ("~" in t and "[:-1]" in t)
+            if later and earlier and "&" in t:
+                txt_ok = True
+        if not txt_ok:
+            return False
+    return True
+
+
 def check_indices_results(p, report, rule):
     """index candidates / annotators are de-duplicated by check_indices: its result must be the array that is used"""
     n_ci = 0
